@@ -164,7 +164,8 @@ def run_rot(u):
     prover = Prover(t_inproc_ms=u.get('t_ms', 20000), t_ext_s=60, use_external=u.get('ext', False))
     what = u['what']
     def explore(fn, label, max_paths=64):
-        ex = Explorer(fn, max_paths=max_paths, timeout_ms=4000)
+        # the to_new_axes units use the linear-skeleton explorer: z3's non-linear engine does not honour its timeout on their feasibility queries
+        ex = LinExplorer(fn, max_paths=max_paths) if what.startswith('to_new_axes') else Explorer(fn, max_paths=max_paths, timeout_ms=4000)
         try: ex.explore()
         except BoundExceeded as e: rep.bound_exceeded.append(label + str(e))
         rep.queries += ex.nqueries; rep.solver_time += ex.qtime
@@ -174,10 +175,17 @@ def run_rot(u):
             I, dom, obs, assum = res
             rep.paths += 1; rep.add_interp(I)
             ob = Obligations(rep, prover, label + "path%d " % rep.paths)
-            side = [b != 0 for b in dom.divs] if what != 'from_to_antiparallel' else []    # antiparallel: the normalisation of a zero vector is the point
+            side = [b != 0 for b in dom.divs] if what not in ('from_to_antiparallel', 'to_new_axes_zflip', 'to_new_axes_xflip') else []    # antiparallel: the normalisation of a zero vector is the point
             for name, goal in obs:
                 ob.prove(name, goal, list(ctx.pc) + assum + side, axioms=dom.axioms, on_sat=replay, domain='REAL (sqrt/sin/cos as atoms with axioms)')
-            ob.witness("path condition", list(ctx.pc) + assum + side, axioms=dom.axioms)
+            if what.startswith('to_new_axes'):
+                # paths come from the linear-skeleton explorer: some are infeasible (their obligations hold vacuously); at least one must be real
+                r_ = prover.check(list(ctx.pc) + assum + side + list(dom.axioms)); rep.queries += 1
+                if r_.status == 'sat': feasible_paths.append(1); rep.witnesses += 1
+            else:
+                ob.witness("path condition", list(ctx.pc) + assum + side, axioms=dom.axioms)
+        if what.startswith('to_new_axes') and not feasible_paths: rep.vacuous.append(label + 'no feasible path')
+    feasible_paths = []
     if what == 'lemmas':
         def run(ctx):
             dom = Real(); I = new_interp(dom, ctx)
@@ -279,6 +287,39 @@ def run_rot(u):
                    ("normalize(v) x v == 0 (z)", w[0] * v[1] - w[1] * v[0] == 0), ("normalize(v) . v > 0", sum(x * y for x, y in zip(w, v)) > 0)]
             return I, dom, obs, [n2(v) > 0]
         discharge(explore(run, 'normalize '), 'normalize ')
+    elif what in ('to_new_axes_zflip', 'to_new_axes_xflip'):
+        # reb_rotation_init_to_new_axes on the two families that drive its SECOND from_to into the exactly-antiparallel branch
+        # (requested new z axis along -z, or requested new x axis along -x): the half-turn picked there must leave z fixed, otherwise the
+        # composed rotation sends newz to -z.  Obligations: unit quaternion, R newz on the +z ray, R newx_orth on the +x ray.
+        def run(ctx):
+            dom = Real(); I = new_interp(dom, ctx)
+            if what == 'to_new_axes_zflip':
+                c = Fraction(u.get('c', 1)); a, b = u.get('ab', (1, 0)); assum = []
+                newz = [Fraction(0), Fraction(0), -c]; newx = [Fraction(a), Fraction(b), Fraction(0)]
+            else:
+                c = Fraction(u.get('c', 1)); s_, t_ = u.get('st', (0, 1)); assum = []
+                newz = [Fraction(0), Fraction(s_), Fraction(t_)]; newx = [-c, Fraction(0), Fraction(0)]
+            for c_ in assum: ctx.assume(c_)
+            o = out(I, 'reb_rotation'); I.call('@reb_rotation_init_to_new_axes', [o, vec(I, 'newz', newz), vec(I, 'newx', newx)])
+            raw = rd(I, o, 'reb_rotation')
+            if any(not (isinstance(c_, (Fraction, int)) or z3.is_expr(c_)) for c_ in raw):
+                return I, dom, [("init_to_new_axes returns a finite quaternion on this path (the path must be infeasible otherwise)", z3.BoolVal(False))], assum
+            q = [zz(dom, c_) for c_ in raw]
+            obs = [("|init_to_new_axes|^2 == 1", n2(q) == 1)]
+            nz = [zz(dom, v_) for v_ in newz]; nx = [zz(dom, v_) for v_ in newx]
+            rz, _ = qrot(q, nz)
+            obs.append(("R newz has no x component", rz[0] == 0)); obs.append(("R newz has no y component", rz[1] == 0)); obs.append(("R newz points along +z", rz[2] > 0))
+            dotp = sum(x_ * y_ for x_, y_ in zip(nz, nx)); nzz = n2(nz)
+            nxo = [nx[k] * nzz - dotp * nz[k] for k in range(3)]            # newx orthogonalised against newz (scaled by |newz|^2 > 0)
+            rx, _ = qrot(q, nxo)
+            obs.append(("R newx_orth has no y component", rx[1] == 0)); obs.append(("R newx_orth has no z component", rx[2] == 0)); obs.append(("R newx_orth points along +x", rx[0] > 0))
+            return I, dom, obs, assum
+        def replay(model):
+            vals = {}
+            vals['c'] = float(Fraction(u.get('c', 1)))
+            vals['a'], vals['b'] = u.get('ab', (1, 0)); vals['s'], vals['t'] = u.get('st', (0, 1))
+            return native_to_new_axes(what, vals)
+        discharge(explore(run, what + ' '), what + ' ', replay)
     elif what == 'orbit':
         def run(ctx):
             dom = Real(); I = new_interp(dom, ctx)
@@ -482,7 +523,25 @@ def native_from_to(vals):
     key = 'C20:init_from_to:' + ('antiparallel-branch' if anti else 'generic')
     return bad, key, "reb_rotation_init_from_to(from=%r, to=%r): |q|^2=%.6g, rotated from/|from| differs from to/|to| by %.3g" % ((fr.x, fr.y, fr.z), (to.x, to.y, to.z), nq, err), dict(vals=vals)
 
+def native_to_new_axes(what, vals):
+    global _nat
+    if _nat is None: _nat = Native()
+    class V3(ctypes.Structure): _fields_ = [('x', ctypes.c_double), ('y', ctypes.c_double), ('z', ctypes.c_double)]
+    class Q(ctypes.Structure): _fields_ = [('ix', ctypes.c_double), ('iy', ctypes.c_double), ('iz', ctypes.c_double), ('r', ctypes.c_double)]
+    f = _nat.lib.reb_rotation_init_to_new_axes; f.restype = Q; f.argtypes = [V3, V3]
+    g = _nat.lib.reb_vec3d_rotate; g.restype = V3; g.argtypes = [V3, Q]
+    c = abs(vals.get('c', 1.0)) or 1.0
+    if what == 'to_new_axes_zflip': newz = V3(0.0, 0.0, -c); newx = V3(float(vals.get('a', 1.0)), float(vals.get('b', 0.0)), 0.0)
+    else: newz = V3(0.0, float(vals.get('s', 0.0)), float(vals.get('t', 1.0))); newx = V3(-c, 0.0, 0.0)
+    if (newx.x == 0 and newx.y == 0 and newx.z == 0) or (newz.y == 0 and newz.z == 0 and newz.x == 0): return False, 'C20:to_new_axes', 'degenerate model', dict(what=what, vals=vals)
+    q = f(newz, newx); rz = g(newz, q)
+    ln = math.sqrt(newz.x ** 2 + newz.y ** 2 + newz.z ** 2)
+    bad = abs(rz.x) > 1e-9 * ln or abs(rz.y) > 1e-9 * ln or not rz.z > 0
+    return bad, 'C20:init_to_new_axes:degenerate-second-rotation', "reb_rotation_init_to_new_axes(newz=%r, newx=%r) maps newz to %r (must be on the +z axis)" % ((newz.x, newz.y, newz.z), (newx.x, newx.y, newx.z), (rz.x, rz.y, rz.z)), dict(kind='to_new_axes', what=what, vals=vals)
+
 def replay(data):
+    if data.get('kind') == 'to_new_axes':
+        r = native_to_new_axes(data['what'], data['vals']); return r[0], r[2]
     if data.get('kind') == 'frames': return native_frames(data['unit'], data['vals'])
     r = native_from_to(data['vals']); return r[0], r[2]
 
@@ -495,6 +554,8 @@ def main():
     t0 = time.time()
     build.module(); build.layout(); build.build_native()
     us = [dict(what='units', tier=tier, slice=k_, nslices=7) for k_ in range(7)] + [dict(what=w, ext=True, t_ms=6000 if tier == 'quick' else 60000) for w in ('lemmas', 'normalize', 'angle_axis', 'from_to_reduced', 'from_to_antiparallel', 'orbit')]
+    # exactly degenerate inputs only exist as concrete data (a symbolic length does not normalise to exactly -1): ground units
+    us += [dict(what='to_new_axes_zflip', ab=ab, c=c_, t_ms=10000) for ab in ((1, 0), (0, 1), (3, 4), (-1, 0)) for c_ in ('1', '2', '1/2')] + [dict(what='to_new_axes_xflip', st=st, c=c_, t_ms=10000) for st in ((0, 1), (3, 4), (1, 0), (0, -1)) for c_ in ('1', '2', '1/2')]
     for N in ((2, 3) if tier == 'quick' else (2, 3, 4)):
         for kind in ('com', 'com_var1', 'hel', 'linear'): us.append(dict(what='frames', kind=kind, N=N, t_ms=20000 if tier == 'quick' else 120000))
     us.append(dict(what='frames', kind='com_var2', N=2, t_ms=30000 if tier == 'quick' else 120000))
@@ -503,7 +564,7 @@ def main():
     code = finish(PID, tier, rep, t0,
         bounds=dict(unit_triples='all (exhaustive over names)', rotation_constructors=['angle_axis', 'from_to (3 branches)', 'orbit'], lemmas=['L1 irotate=q v q*', 'L2 composition', 'L3 norm product']),
         assumptions=['real arithmetic (rounding outside)', 'float constants enter z3 through their shortest decimal repr', 'vectors non-zero; unit quaternion where stated'],
-        outside=['rounding error magnitude', 'the generic >90 degree case of init_from_to is covered only through its two reduced factors + lemmas L2/L3 (the monolithic NRA query times out: 878 s, inconclusive)', 'init_to_new_axes and to_orbital (inverse trigonometric functions)', 'move_to_com with test-particle variations (documented as not affecting the centre of mass); N_real > 4', 'units added by users at run time'],
+        outside=['rounding error magnitude', 'the generic >90 degree case of init_from_to is covered only through its two reduced factors + lemmas L2/L3 (the monolithic NRA query times out: 878 s, inconclusive)', 'init_to_new_axes outside 24 concrete exactly-degenerate inputs (new z along -z; new x along -x) — exact degeneracy cannot be expressed with a symbolic length, and the generic case inherits the monolithic >90 degree from_to query; to_orbital (inverse trigonometric functions)', 'move_to_com with test-particle variations (documented as not affecting the centre of mass); N_real > 4', 'units added by users at run time'],
         domain_note='REAL; Python units code executed on z3 Real terms; quaternion algebra over the reals with sqrt/sin/cos atoms')
     sys.exit(code)
 
